@@ -1,5 +1,5 @@
 #!/usr/bin/env python3
-"""tools/results_tables.py <sensitivity log> — prints the markdown tables of DESIGN.md §9.2/§9.3 from the
+"""tools/results_tables.py <sensitivity log>... — prints the markdown tables of DESIGN.md §9.2/§9.3 from the
 sensitivity sweep log (tools/run_sensitivity.sh output) and seeded/*/meta.json."""
 import json, os, re, sys, glob
 ROOT = os.path.join(os.path.dirname(os.path.abspath(__file__)), "..")
@@ -12,18 +12,19 @@ def row(name, res):
     return "| %s | %s |" % (name, " | ".join(cells))
 print("| change | " + " | ".join(PROPS) + " |")
 print("|---|" + "---|"*len(PROPS))
-if len(sys.argv) > 1 and os.path.exists(sys.argv[1]):
-    cur, res = None, {}
-    out = []
-    for line in open(sys.argv[1]):
+order, table = [], {}
+for path in sys.argv[1:]:
+    if not os.path.exists(path): continue
+    cur = None
+    for line in open(path):
         m = re.match(r"### sensitivity/(.*)\.diff", line)
         if m:
-            if cur: out.append((cur, res))
-            cur, res = m.group(1), {}
+            cur = m.group(1)
+            if cur not in table:
+                table[cur] = {}; order.append(cur)
         m = re.match(r"(C\d\d) exit=(\d)", line)
-        if m and cur: res[m.group(1)] = m.group(2)
-    if cur: out.append((cur, res))
-    for name, res in out: print(row(name, res))
+        if m and cur: table[cur][m.group(1)] = m.group(2)   # later logs override earlier ones
+for name in order: print(row(name, table[name]))
 print()
 print("| seeded change | breaks | confirmed | " + " | ".join(PROPS) + " |")
 print("|---|---|---|" + "---|"*len(PROPS))
